@@ -19,6 +19,17 @@ pcell = z3.Function("pcell", IntArr, z3.IntSort(), z3.IntSort())
 psum = z3.Function("psum", IntArr, z3.IntSort(), z3.IntSort())
 
 
+RealArr = z3.ArraySort(z3.IntSort(), z3.RealSort())
+rpsum = z3.Function("rpsum", RealArr, z3.IntSort(), z3.RealSort())
+
+
+def rpsum_nonneg_lemma(a, lo, hi):
+    """real-valued analogue of psum_nonneg_lemma (same induction)"""
+    k = z3.Int(fresh_name("rk"))
+    nonneg = z3.ForAll([k], z3.Implies(z3.And(lo <= k, k < hi), a[k] >= 0), patterns=[a[k]])
+    return z3.Implies(z3.And(nonneg, lo <= hi), rpsum(a, hi) - rpsum(a, lo) >= 0)
+
+
 def global_axioms():
     """Axioms about W / pcell / psum (names are reported in the evidence's trusted base)."""
     a = z3.Const("a!ax", IntArr)
@@ -39,6 +50,8 @@ def global_axioms():
     ax["psum.unfold"] = z3.ForAll(
         [a, i], psum(a, i + 1) == psum(a, i) + a[i], patterns=[a[i]]
     )
+    ra = z3.Const("ra!ax", RealArr)
+    ax["rpsum.unfold"] = z3.ForAll([ra, i], rpsum(ra, i + 1) == rpsum(ra, i) + ra[i], patterns=[ra[i]])
     return ax
 
 
